@@ -147,6 +147,9 @@ func runLinCase(c *Ctx, dc dbCase, tape *simrt.Tape) dbsimOutcome {
 			add(bad, fmt.Sprintf("session %d failed: %s %v", si, bad, res.TasksLeft))
 			break
 		}
+		if res.Unfinished {
+			return out
+		}
 	}
 	for _, op := range r.hist {
 		if op.Err != "" {
@@ -198,7 +201,15 @@ func linsimMain(c *Ctx) {
 		r := rand.New(rand.NewSource(seed))
 		dc := linGen(r, c.Thorough())
 		tape := simrt.NewTape(seed)
+		tape.NoRec = simrt.RaceBuild
 		out := runLinCase(c, dc, tape)
+		if simrt.RaceBuild {
+			sigs, details := raceSigs(raceDelta())
+			c.Count("race-reports", len(sigs))
+			for k := range sigs {
+				out.vs = append(out.vs, dbViolation{sigs[k], details[k]})
+			}
+		}
 		c.Res.Runs++
 		c.Res.Evaluations++ // one history checked
 		c.Res.SimSeconds += out.simTime.Seconds()
@@ -245,7 +256,14 @@ func linsimReplay(c *Ctx, rf *ReplayFile) []Violation {
 		panic(err)
 	}
 	var out []Violation
-	for _, v := range runLinCase(c, dc, simrt.ReplayTape(rf.Tape)).vs {
+	vs := runLinCase(c, dc, tapeFor(rf)).vs
+	if simrt.RaceBuild {
+		sigs, details := raceSigs(raceDelta())
+		for k := range sigs {
+			vs = append(vs, dbViolation{sigs[k], details[k]})
+		}
+	}
+	for _, v := range vs {
 		out = append(out, Violation{Property: rf.Property, Sig: v.sig, Detail: v.detail})
 	}
 	return out
